@@ -2,7 +2,7 @@
    unreachable!()/unwrap()/index expression of the source; the lemmas below show, site by site, that the guarded
    invariants hold, so that the site is not reachable. *)
 From Coq Require Import Lia.
-From GV.Model Require Import SEval Check.
+From GV.Model Require Import SEval Check Strat.
 From GV.Proofs Require Import EvalLaws.
 
 Section N.
@@ -130,12 +130,6 @@ Ltac np :=
                   | |- (match ?x with _ => _ end) <> _ => destruct x
                   | |- (if ?c then _ else _) <> _ => destruct c
                   end ]).
-
-Definition fn_arity (n : fn_name) : nat :=
-  match n with
-  | FJoin => 2 | FSubstring => 3 | FRegexReplace => 3 | FNow => 0
-  | _ => 1
-  end.
 
 Theorem modelled_functions_never_panic : forall name args s,
   List.length args = fn_arity name -> call_fn name args <> Panic s.
